@@ -54,6 +54,12 @@ dst = os.path.join("/verif/seeded", "%s-%s" % (prop, variant))
 os.makedirs(dst, exist_ok=True)
 shutil.copy(os.path.join(sd, "patch.diff"), dst)
 shutil.copy(os.path.join(sd, "demo.py"), dst)
+old = os.path.join(dst, "meta.json")
+if skip_tests and os.path.exists(old):
+    try:
+        res["tests_with_change"] = json.load(open(old))["verified_by_us"].get("tests_with_change")
+    except Exception:
+        pass
 meta["verified_by_us"] = res
 meta["what_we_ran"] = ("tools_seed.py: patch applied in a scratch worktree; demo.py run with and without it; repository tests run with it; "
                        "bin/check %s --tier %s run against the patched worktree (PYTHONPATH)" % (",".join(checks), tier))
